@@ -45,7 +45,10 @@ func NewDualView() *View {
 
 func NewViewFromGroupedRecord(ctx context.Context, flags *option.Flags, referenceRecord ReferenceRecord) (*View, error) {
 	view := NewView()
-	view.Header = referenceRecord.view.Header
+	// The views of all groups are used at the same time, so a field that is added to one of them must not be
+	// written into the spare capacity of the header they share.
+	header := referenceRecord.view.Header
+	view.Header = header[:len(header):len(header)]
 	record := referenceRecord.view.RecordSet[referenceRecord.recordIndex]
 
 	view.RecordSet = make(RecordSet, record.GroupLen())
